@@ -184,6 +184,8 @@ func (fr *Frame) ghostCall(i *ssa.Call, kind string, args []Val, st *State, g Te
 			ts = append(ts, fr.term(v, st))
 		}
 		fr.regs[i] = TV{T: Eq(ts[0], ts[1])}
+	case "SameFloat":
+		fr.regs[i] = TV{T: Eq(x.t(args[0], st), x.t(args[1], st))}
 	case "B2I":
 		fr.regs[i] = TV{T: Ite(x.t(args[0], st), IntLit(1), IntLit(0))}
 	case "Assert":
